@@ -74,6 +74,7 @@ type c14Req struct {
 	hdrKind  string
 	prfKind  string
 	sigKind  string
+	otherLog *c14Origin
 	txtKind  string
 	junkKind string
 	proof    []vfref.Hash
@@ -379,11 +380,25 @@ func (c *c14Case) genReq(t *rapid.T, lbl string, faults bool) *c14Req {
 		if r.profile == "one" && r.sigKind == "ok" {
 			r.sigKind = "altkey"
 		}
+		// the key of ANOTHER log the witness knows (signing under that log's own name): not this log's key
+		if r.sigKind == "altkey" || r.sigKind == "unknownonly" {
+			var others []*c14Origin
+			for _, x := range c.wd.origins {
+				if x != o && x.registered && (x.key.kind != "mldsa" || o.key.kind == "mldsa") { // (an ML-DSA signer refuses texts with extension lines, which are only generated for logs of other key kinds)
+					others = append(others, x)
+				}
+			}
+			if len(others) > 0 && rapid.IntRange(0, 2).Draw(t, lbl+"otherlog") > 0 {
+				r.sigKind = "otherlogkey"
+				r.otherLog = others[rapid.IntRange(0, len(others)-1).Draw(t, lbl+"otherlogi")]
+				c.classes["signed-by-another-known-log's-key"] = true
+			}
+		}
 	} else if rapid.IntRange(0, 9).Draw(t, lbl+"sigextra") == 0 {
 		r.sigKind = c14Pick(t, lbl+"sigx", []c14W{{"ok+unknown", 1}, {"ok+witnessforged", 1}, {"ok+cosigned", 1}, {"unknown+ok", 1}})
 	}
 	switch r.sigKind {
-	case "altkey", "unknownonly", "garbage", "wrongtext":
+	case "altkey", "unknownonly", "garbage", "wrongtext", "otherlogkey":
 		r.static[403] = true
 	case "none":
 		r.static[400] = true
@@ -498,6 +513,8 @@ func (c *c14Case) build(t *rapid.T, lbl string, r *c14Req) {
 		}
 	case "altkey":
 		lines = []string{sign(o.alt, noteText)}
+	case "otherlogkey":
+		lines = []string{sign(r.otherLog.key, noteText)}
 	case "unknownonly":
 		lines = []string{sign(c.unknown, noteText)}
 	case "garbage":
